@@ -90,6 +90,8 @@ def gen_case(rng, tier, index):
     if mode == "enum":
         cand = [a for a in actors if a["kind"] in ("upload", "mirror")]
         case["enumerate_kill"] = rng.choice(cand)["name"]
+        # every sim point of that actor is hit in turn by a SIGKILL or by an errno
+        case["enumerate_fault"] = rng.choice(["kill", "kill", "errno28", "errno5", "errno13"])
     case["faults"] = faults
     return case
 
@@ -447,14 +449,17 @@ def run_case(case):
     if viol is None and case.get("enumerate_kill") and case["enumerate_kill"] in npts:
         name = case["enumerate_kill"]
         base = dict(case, decisions=list(sim.decisions))
+        ef = case.get("enumerate_fault", "kill")
         for k in range(1, npts[name] + 1):
-            v, s2, r2, _ = _one_run(base, [{"actor": name, "at": k, "kind": "kill"}], "k%d" % k, stats)
+            flt = ({"actor": name, "at": k, "kind": "kill"} if ef == "kill" else
+                   {"actor": name, "at": k, "kind": "errno", "errno": int(ef[5:])})
+            v, s2, r2, _ = _one_run(base, [flt], "k%d" % k, stats)
             runs += 1
             log.append(("enum", k, r2))
             if v is not None:
-                viol = dict(v, detail="[kill %s at point %d] %s" % (name, k, v["detail"]))
+                viol = dict(v, detail="[%s %s at point %d] %s" % (ef, name, k, v["detail"]))
                 break
-        stats.inc("enumerated_kill_points", npts[name])
+        stats.inc("enumerated_fault_points", npts[name])
     stats.inc("runs", runs)
     stats.inc("actors_" + str(len(case["actors"])))
     fired = any(k.startswith("fault_") for k in stats)
